@@ -31,7 +31,7 @@ void wrap_init(void);
 void wrap_reset_case(void);
 }
 
-static long st_cases, st_viol, st_calls, st_bytes, st_runs, st_stops, st_strings, st_timeouts, st_locked_looks;
+static long st_cases, st_viol, st_calls, st_bytes, st_runs, st_stops, st_strings, st_timeouts, st_locked_looks, st_run_stops;
 
 static void viol(const char *cls, long idx, const std::string &msg)
 {
@@ -68,7 +68,7 @@ struct Recorder {
 
 static std::string g_vchild, g_scratch;
 
-static std::string setup_child(long idx, long nout, long nerr, int echo, int code, unsigned seed)
+static std::string setup_child(long idx, long nout, long nerr, int echo, int code, unsigned seed, const char *extra = "")
 {
   std::string dir = g_scratch + "/x" + std::to_string(idx);
   mkdir(dir.c_str(), 0755);
@@ -81,7 +81,7 @@ static std::string setup_child(long idx, long nout, long nerr, int echo, int cod
   FILE *f = fopen((dir + "/vc.cfg").c_str(), "w");
   // no control socket: the helper exits 114 if it cannot connect, so give it a dead-end path it
   // is allowed to fail on? No - the free-running mode needs the hello. Use "nosock" mode instead.
-  fprintf(f, "-\nnosock free:out=%ld err=%ld echo=%d exit=%d seed=%u\nx%ld\n", nout, nerr, echo, code, seed, idx);
+  fprintf(f, "-\nnosock free:out=%ld err=%ld echo=%d exit=%d seed=%u%s\nx%ld\n", nout, nerr, echo, code, seed, extra, idx);
   fclose(f);
   return prog;
 }
@@ -143,9 +143,9 @@ static void one_case(long idx)
   long nout = static_cast<long>(rnd() % 5 == 0 ? rnd() % 300000 : rnd() % 9000);
   long nerr = static_cast<long>(rnd() % 4 == 0 ? 0 : rnd() % 6000);
   int code = static_cast<int>(rnd() % 256);
-  int kind = static_cast<int>(idx % 6);
+  int kind = static_cast<int>(idx % 7);
   bool err_piped = rnd() % 3 != 0;
-  std::string prog = setup_child(idx, nout, nerr, kind == 4 ? 1 : 0, code, static_cast<unsigned>(rnd()));
+  std::string prog = setup_child(idx, nout, nerr, kind == 4 ? 1 : 0, code, static_cast<unsigned>(rnd()), kind == 6 ? " closefirst=1 life=12000" : "");
   std::vector<std::string> args{ prog };
   reproc::options o;
   o.redirect.err.type = err_piped ? reproc::redirect::pipe : reproc::redirect::discard;
@@ -187,6 +187,16 @@ static void one_case(long idx)
     auto res = reproc::run(args, o, outsink, errsink);
     st_runs++;
     if (res.second || res.first != code) viol("run-status-wrong", idx, "run returned " + std::to_string(res.first) + " (" + res.second.message() + "), child exits with " + std::to_string(code));
+    check_protocol(idx, rec, true, err_piped, nout, nerr, true);
+  } else if (kind == 6) {
+    // the child closes both streams itself and lives on for 12 s: run() must stop it by the policy given in the
+    // options (terminate, then kill) and return that ending - not wait for the child's own end
+    o.stop = { { reproc::stop::terminate, reproc::milliseconds(10000) }, { reproc::stop::kill, reproc::milliseconds(10000) }, {} };
+    auto res = reproc::run(args, o, outsink, errsink);
+    st_runs++;
+    st_run_stops++;
+    if (res.second || res.first != 128 + SIGTERM)
+      viol("run-does-not-stop-child", idx, "run returned " + std::to_string(res.first) + " (" + res.second.message() + "); the child outlives its output and the stop policy is terminate/kill, so the status must be " + std::to_string(128 + SIGTERM));
     check_protocol(idx, rec, true, err_piped, nout, nerr, true);
   } else if (kind == 3) {
     // string sinks: exact accumulation, also when non-empty before
@@ -285,6 +295,6 @@ int main(int argc, char **argv)
   rs = static_cast<uint64_t>(atol(argv[6])) * 0x9E3779B97F4A7C15ULL + static_cast<uint64_t>(w) * 7919 + 3;
   long n = (thorough ? 6000 : 480) / nw;
   for (long i = 0; i < n; i++) one_case(i * nw + w);
-  printf("S\t%ld\t%ld\t%ld\t%ld\t%ld\t%ld\t%ld\t%ld\t%ld\n", st_cases, st_viol, st_calls, st_bytes, st_runs, st_stops, st_strings, st_timeouts, st_locked_looks);
+  printf("S\t%ld\t%ld\t%ld\t%ld\t%ld\t%ld\t%ld\t%ld\t%ld\t%ld\n", st_cases, st_viol, st_calls, st_bytes, st_runs, st_stops, st_strings, st_timeouts, st_locked_looks, st_run_stops);
   return st_viol ? 1 : 0;
 }
